@@ -35,7 +35,9 @@ def explore_session(ck, name, args, bound, exe, deadline, variant_env=None):
 
     def on(res):
         devs = schedlib.delays_str(res["devs"])
-        rep = {"session": name, "args": args, "delays": devs}
+        rep = {"session": name, "args": args, "delays": devs, "stalls": res.get("stalls") or []}
+        if res.get("stalls"):
+            devs = "stall at %s" % res["stalls"]
         if res["rc"] == 6:
             return  # divergence handled below (hard error)
         if res["timeout"]:
@@ -50,17 +52,19 @@ def explore_session(ck, name, args, bound, exe, deadline, variant_env=None):
             return
         ob = observation(res)
         state["outcomes"][ob] = state["outcomes"].get(ob, 0) + 1
-        if not res["devs"]:
+        if not res["devs"] and not res.get("stalls"):
             state["ref"] = ob
             if out.get("completed") != 1:
                 ck.violation("C04:incomplete@%s" % name, "canonical schedule does not complete: %s" % (ob,), rep)
         elif state["ref"] is not None and ob != state["ref"]:
             ck.violation("C04:output-differs@%s" % name, "schedule [%s] yields %s, canonical schedule yields %s" % (devs, ob, state["ref"]), rep)
 
-    E.run(bound, on, deadline)
+    E.run(bound, on, deadline - 0.4 * max(0, deadline - time.time()))
     if E.divergences:
         raise RuntimeError("DIVERGENCE while replaying schedule prefixes %s of %s: nondeterminism not captured" % (E.divergences[:3], name))
-    return E, state
+    # one stall point: at every decision point of the canonical schedule the running thread becomes arbitrarily slow (DESIGN 9.1)
+    S = schedlib.stall_sweep(exe, argv, on, deadline, env=env, timeout=300)
+    return E, state, S
 
 
 def run(tier):
@@ -79,20 +83,22 @@ def run(tier):
             exhaustive = False
             break
         share = left / (len(sessions) - i) if tier == "quick" else left
-        E, st = explore_session(ck, name, args, bound, exe, time.time() + share)
-        tot_exec += E.executions
-        tot_trans += E.transitions
-        traces += len(E.trace_hashes)
-        if E.capped:
+        E, st, S = explore_session(ck, name, args, bound, exe, time.time() + share)
+        tot_exec += E.executions + S["executions"]
+        tot_trans += E.transitions + S["transitions"]
+        traces += len(E.trace_hashes | S["trace_hashes"])
+        if E.capped or not S["complete"]:
             exhaustive = False
         per.append({"session": name, "delay_bound_requested": bound, "delay_bound_completed": E.completed_bound,
                     "schedules": E.executions, "decisions": E.transitions, "distinct_decision_traces": len(E.trace_hashes),
-                    "max_enabled": E.max_enabled, "distinct_outcomes": len(st["outcomes"]), "capped": E.capped})
+                    "max_enabled": E.max_enabled, "distinct_outcomes": len(st["outcomes"]), "capped": E.capped,
+                    "stall_points": S["points"], "stall_schedules": S["executions"] - 1, "stall_sweep_complete": S["complete"],
+                    "stall_distinct_traces": len(S["trace_hashes"])})
         samples.extend([dict(s, session=name) for s in E.samples[:2]])
     cov = {"states": traces, "transitions": tot_trans, "traces_validated_against_impl": tot_exec, "samples": samples or [{"delays": ""}],
            "exhaustive": exhaustive, "per_session": per,
            "explanation": "stateless exploration of the real encoder under the serialising scheduler: every schedule with total delay <= bound "
-                          "is executed; 'states' counts distinct decision traces, 'transitions' scheduling decisions executed; every "
+                          "is executed, and every schedule with one stall point (the thread running at decision point p is arbitrarily slow from p on); 'states' counts distinct decision traces, 'transitions' scheduling decisions executed; every "
                           "schedule is an execution of the implementation"}
     return ck.finish(cov, ["scheduling points: SVT mutex lock and release, semaphore wait/post, cond var set/wait, thread create/join; code between them is atomic",
                            "delay-bounded (Emmi/Qadeer/Rakamaric) exploration: bound 1 quick, 2 on the smallest session in the thorough tier",
@@ -106,8 +112,8 @@ def replay(path):
     argv = ["%s=%s" % kv for kv in d["args"].items()]
     devs = [tuple(int(x) for x in t.split(":")) for t in d["delays"].split(",") if t]
     a = schedlib.run_schedule(exe, argv, [], env={"VS_UNLOCK_YIELD": "1"})
-    b = schedlib.run_schedule(exe, argv, devs, env={"VS_UNLOCK_YIELD": "1"})
-    b2 = schedlib.run_schedule(exe, argv, devs, env={"VS_UNLOCK_YIELD": "1"})
+    b = schedlib.run_schedule(exe, argv, devs, env={"VS_UNLOCK_YIELD": "1"}, stalls=d.get("stalls") or ())
+    b2 = schedlib.run_schedule(exe, argv, devs, env={"VS_UNLOCK_YIELD": "1"}, stalls=d.get("stalls") or ())
     print("canonical:", observation(a), "rc", a["rc"])
     print("schedule [%s]:" % d["delays"], observation(b), "rc", b["rc"], json.dumps(b.get("out"))[:300] if b["rc"] else "")
     print("deterministic replay:", observation(b) == observation(b2) and b["rc"] == b2["rc"])
